@@ -42,8 +42,11 @@ def parse_frames(data):
             out = part[:k]
             rest = part[k + 3:]
             nl = rest.find("\n")
-            res = rest if nl < 0 else rest[:nl]
-            frames.append((out, res))
+            if nl < 0:
+                # the result line is not terminated: the process was stopped (watchdog) while writing it
+                frames.append((part, None))
+            else:
+                frames.append((out, rest[:nl]))
     return frames
 
 def _run_impl_chunk(lines, per_chunk_timeout):
